@@ -76,7 +76,7 @@ man = {"version": 1,
                    {"name": "evx-c15", "path": "/verif/c15", "serves_properties": ["C15"], "kind_free_text": "thread stress binary run natively, under cargo +nightly miri (many seeds) and under ThreadSanitizer (-Zbuild-std); /verif/sendsync holds the compile-time Send+Sync assertions"},
                    {"name": "evx-c16", "path": "/verif/c16", "serves_properties": ["C16"], "kind_free_text": "serde/ron round-trip binary built with cargo +1.81.0 against evalexpr[serde]"}],
        "checks": [chk(p) for p in claimed],
-       "notes": "All checks: ./check <id> quick|thorough; VERIF_SEED selects the random part. Known findings: /verif/known_findings.json (all ten defects found on the pinned tree were repaired by `fix:` commits in /repo, so it holds only `fixed` entries).",
+       "notes": "All checks: ./check <id> quick|thorough; VERIF_SEED selects the random part. Known findings: /verif/known_findings.json (all eleven genuine defects found were repaired by `fix:` commits in /repo, so it holds only `fixed` entries).",
        "not_applicable": [{"property_id": p["id"], "reason": NOT_YET} for p in props if p["id"] not in CHECKS]}
 json.dump(man, open(os.path.join(HERE, "MANIFEST.json"), "w"), indent=1)
 print("claimed:", claimed)
